@@ -1,5 +1,5 @@
 # replay of a bounded stand-in violation (C06): re-run native/c06_measure.py
 import sys
-print('bosonic MeasureThreshold on mode 0, outcome 1 (probability 0.276): mode 1 has (<n>, <x>, <p>) = [0.4458, 0.8919, 0.3447], the conditional state has [0.3615, 0.5974, 0.469]')
+print('fock(pure=True) measure_fock([1, 2, 0]): RNG picked photon numbers {0: np.int64(0), 1: np.int64(0), 2: np.int64(1)} but the reported outcome is [1, 0, 0] for modes [1, 2, 0]')
 print('REPLAY-VIOLATION')
 sys.exit(1)
